@@ -51,7 +51,7 @@ TSpec == TInit /\ [][TNext]_tvars
 (* ---------------- verdict on the logged session ---------------- *)
 MsgEvents(c) == SelectSeq(c.events, LAMBDA x : x.e = "msg")
 PopEvents(c) == SelectSeq(c.events, LAMBDA x : x.e = "pop" /\ x.off # -1)
-StartOf(c, i) == Sum(SubSeq(c.mlens, 1, i - 1))
+StartOf(c, i) == IF i - 1 > Len(c.mlens) \/ i < 1 THEN -1 ELSE Sum(SubSeq(c.mlens, 1, i - 1))   \* -1: no such boundary (a reader that ran past the end)
 Viol(c) ==
   LET ms == MsgEvents(c)
       ps == PopEvents(c)
